@@ -71,7 +71,7 @@ func (f *Decrypt) Call(s *slip.Scope, args slip.List, depth int) (result slip.Ob
 	if _, ok := args[0].(slip.Octets); ok {
 		dup = true
 	}
-	data := []byte(slip.CoerceToOctets(args[0]).(slip.Octets))
+	data := coerceToBytes(args[0])
 	strip, block, bsize, trim := extractDencryptArgs(s, args[1:], depth)
 
 	if len(data) < bsize {
@@ -99,7 +99,7 @@ func extractDencryptArgs(
 
 	var ciph slip.Object = slip.Symbol(":aes")
 
-	key := []byte(slip.CoerceToOctets(args[0]).(slip.Octets))
+	key := coerceToBytes(args[0])
 	strip = byte(0)
 	if 1 < len(args) {
 		rest := args[1:]
